@@ -17,6 +17,7 @@ package engine
 
 //@ func (*Gengine).Execute
 //@   props C04 C11 C09
+//@   alsoprops C06
 //@   entry nolocks
 //@   requires g != nil
 //@   requires rb != nil ==> wfSorted(rb.Kc)
@@ -24,13 +25,14 @@ package engine
 //@   use seqmonitor(S, false, b)
 //@   use seqpost(S, b, rb != nil && len(S) > 0)
 //@   ensures [C04] norules: rb == nil || len(S) == 0 ==> result != nil && cursor == 0
-//@   ensures [C11] newmap: rb != nil ==> g.returnResult != nil && fresh(g.returnResult)
+//@   ensures [C11,C06] newmap: rb != nil ==> g.returnResult != nil && fresh(g.returnResult)
 //@   modifies frame rulerun, g.returnResult
 //@   nopanic
 //@   use seqloop(0, S, b)
 
 //@ func (*Gengine).ExecuteWithStopTagDirect
 //@   props C04 C11 C09 C14
+//@   alsoprops C06
 //@   entry nolocks
 //@   requires g != nil && sTag != nil
 //@   requires rb != nil ==> wfSorted(rb.Kc)
@@ -38,7 +40,7 @@ package engine
 //@   use seqmonitor(S, sTag.StopTag, b)
 //@   use seqpost(S, b, rb != nil && len(S) > 0)
 //@   ensures [C04] norules: rb == nil || len(S) == 0 ==> result != nil && cursor == 0
-//@   ensures [C11] newmap: rb != nil ==> g.returnResult != nil && fresh(g.returnResult)
+//@   ensures [C11,C06] newmap: rb != nil ==> g.returnResult != nil && fresh(g.returnResult)
 //@   modifies frame rulerun, g.returnResult
 //@   nopanic
 //@   use seqloop(0, S, b)
@@ -48,6 +50,7 @@ package engine
 
 //@ func (*Gengine).ExecuteSelectedRules
 //@   props C04 C11 C09 C12
+//@   alsoprops C06
 //@   entry nolocks
 //@   requires g != nil
 //@   requires rb != nil ==> wfEntities(rb.Kc)
@@ -57,7 +60,7 @@ package engine
 //@   use seqmonitor(rules, false, true)
 //@   use seqpost(rules, true, cursor > 0)
 //@   ensures [C12] nothingselected: cursor == 0 ==> result != nil
-//@   ensures [C11] newmap: rb != nil ==> g.returnResult != nil && fresh(g.returnResult)
+//@   ensures [C11,C06] newmap: rb != nil ==> g.returnResult != nil && fresh(g.returnResult)
 //@   modifies frame rulerun, g.returnResult
 //@   nopanic
 //@   use seqloop(1, rules, true)
@@ -69,6 +72,7 @@ package engine
 
 //@ func (*Gengine).ExecuteConcurrent
 //@   props C05 C09 C11
+//@   alsoprops C06
 //@   entry nolocks
 //@   requires g != nil
 //@   requires rb != nil ==> wfEntities(rb.Kc)
@@ -83,7 +87,7 @@ package engine
 //@     after R := ite(t_tret, setadd(R, b_rr.RuleName), R)
 //@   ensures [C05] errpolicy: rb != nil && len(rb.Kc.RuleEntities) > 0 ==> ((result != nil) <==> anyfail)
 //@   ensures [C11] resultmap: rb != nil ==> fresh(g.returnResult) && dom(g.returnResult) == R
-//@   ensures [C11] newmap: rb != nil ==> g.returnResult != nil && fresh(g.returnResult)
+//@   ensures [C11,C06] newmap: rb != nil ==> g.returnResult != nil && fresh(g.returnResult)
 //@   modifies frame rulerun, g.returnResult
 //@   nopanic
 //@   loop 0 invariant forks: forked(wg) == nfork && nfork == itercount && added(wg) == len(KC0.RuleEntities)
@@ -98,6 +102,7 @@ package engine
 
 //@ func (*Gengine).ExecuteMixModel
 //@   props C05 C11 C09
+//@   alsoprops C06
 //@   entry nolocks
 //@   requires g != nil
 //@   requires rb != nil ==> wfSorted(rb.Kc)
@@ -108,7 +113,7 @@ package engine
 //@   ensures [C05] mix: rb != nil && len(S) > 0 ==> cursor == 1 && ((result != nil) <==> (failed || cfailed)) && (nfork == 0 || nfork == len(S) - 1) && (nfork == 0 ==> (failed || len(S) == 1)) && (failed ==> nfork == 0)
 //@   ensures [C05] norules: rb == nil || len(S) == 0 ==> result != nil && cursor == 0 && nfork == 0
 //@   ensures [C11] resultmap: rb != nil ==> !pend && fresh(g.returnResult) && dom(g.returnResult) == R
-//@   ensures [C11] newmap: rb != nil ==> g.returnResult != nil && fresh(g.returnResult)
+//@   ensures [C11,C06] newmap: rb != nil ==> g.returnResult != nil && fresh(g.returnResult)
 //@   modifies frame rulerun, g.returnResult
 //@   nopanic
 //@   use forkloop(0, wg, len(S) - 1, 0)
@@ -119,6 +124,7 @@ package engine
 
 //@ func (*Gengine).ExecuteMixModelWithStopTagDirect
 //@   props C05 C11 C09 C14
+//@   alsoprops C06
 //@   entry nolocks
 //@   requires g != nil && sTag != nil
 //@   requires rb != nil ==> wfSorted(rb.Kc)
@@ -130,7 +136,7 @@ package engine
 //@   ensures [C14] stopnofork: stopped ==> nfork == 0
 //@   ensures [C05] norules: rb == nil || len(S) == 0 ==> result != nil && cursor == 0 && nfork == 0
 //@   ensures [C11] resultmap: rb != nil ==> !pend && fresh(g.returnResult) && dom(g.returnResult) == R
-//@   ensures [C11] newmap: rb != nil ==> g.returnResult != nil && fresh(g.returnResult)
+//@   ensures [C11,C06] newmap: rb != nil ==> g.returnResult != nil && fresh(g.returnResult)
 //@   modifies frame rulerun, g.returnResult
 //@   nopanic
 //@   use forkloop(0, wg, len(S) - 1, 0)
@@ -144,6 +150,7 @@ package engine
 
 //@ func (*Gengine).ExecuteInverseMixModel
 //@   props C05 C11 C09
+//@   alsoprops C06
 //@   entry nolocks
 //@   requires g != nil
 //@   requires rb != nil ==> wfSorted(rb.Kc)
@@ -157,7 +164,7 @@ package engine
 //@   ensures [C05] invmix: rb != nil && len(S) > 2 ==> nfork == len(S) - 1 && ((result != nil) <==> (failed || cfailed)) && (cursor == 1 || cursor == 0) && (cursor == 0 <==> cfailed)
 //@   ensures [C05] norules: rb == nil || len(S) == 0 ==> result != nil && cursor == 0 && nfork == 0
 //@   ensures [C11] resultmap: rb != nil ==> !pend && fresh(g.returnResult) && dom(g.returnResult) == R
-//@   ensures [C11] newmap: rb != nil ==> g.returnResult != nil && fresh(g.returnResult)
+//@   ensures [C11,C06] newmap: rb != nil ==> g.returnResult != nil && fresh(g.returnResult)
 //@   modifies frame rulerun, g.returnResult
 //@   nopanic
 //@   loop 0 invariant cur: cursor == rangeindex + 1 && 0 <= cursor && cursor <= len(S) && len(S) <= 2 && !failed && nfork == 0 && stage == 0
@@ -175,6 +182,7 @@ package engine
 
 //@ func (*Gengine).ExecuteSelectedRulesWithControl
 //@   props C04 C11 C09 C12
+//@   alsoprops C06
 //@   entry nolocks
 //@   requires g != nil
 //@   requires rb != nil ==> wfEntities(rb.Kc)
@@ -184,7 +192,7 @@ package engine
 //@   use seqmonitor(rules, false, b)
 //@   use seqpost(rules, b, cursor > 0)
 //@   ensures [C12] nothingselected: cursor == 0 ==> result != nil
-//@   ensures [C11] newmap: rb != nil ==> g.returnResult != nil && fresh(g.returnResult)
+//@   ensures [C11,C06] newmap: rb != nil ==> g.returnResult != nil && fresh(g.returnResult)
 //@   modifies frame rulerun, g.returnResult
 //@   nopanic
 //@   use seqloop(1, rules, b)
@@ -193,6 +201,7 @@ package engine
 
 //@ func (*Gengine).ExecuteSelectedRulesWithControlAsGivenSortedName
 //@   props C11 C09 C12
+//@   alsoprops C06
 //@   entry nolocks
 //@   requires g != nil
 //@   requires rb != nil ==> wfEntities(rb.Kc)
@@ -202,7 +211,7 @@ package engine
 //@   use seqmonitor(rules, false, b)
 //@   use seqpost(rules, b, cursor > 0)
 //@   ensures [C12] nothingselected: cursor == 0 ==> result != nil
-//@   ensures [C11] newmap: rb != nil ==> g.returnResult != nil && fresh(g.returnResult)
+//@   ensures [C11,C06] newmap: rb != nil ==> g.returnResult != nil && fresh(g.returnResult)
 //@   modifies frame rulerun, g.returnResult
 //@   nopanic
 //@   use seqloop(1, rules, b)
@@ -214,6 +223,7 @@ package engine
 
 //@ func (*Gengine).ExecuteSelectedRulesWithControlAndStopTag
 //@   props C04 C11 C09 C12 C14
+//@   alsoprops C06
 //@   entry nolocks
 //@   requires g != nil && sTag != nil
 //@   requires rb != nil ==> wfEntities(rb.Kc)
@@ -223,7 +233,7 @@ package engine
 //@   use seqmonitor(rules, sTag.StopTag, b)
 //@   use seqpost(rules, b, cursor > 0)
 //@   ensures [C12] nothingselected: cursor == 0 ==> result != nil
-//@   ensures [C11] newmap: rb != nil ==> g.returnResult != nil && fresh(g.returnResult)
+//@   ensures [C11,C06] newmap: rb != nil ==> g.returnResult != nil && fresh(g.returnResult)
 //@   modifies frame rulerun, g.returnResult
 //@   nopanic
 //@   use seqloop(1, rules, b)
@@ -232,6 +242,7 @@ package engine
 
 //@ func (*Gengine).ExecuteSelectedRulesWithControlAndStopTagAsGivenSortedName
 //@   props C11 C09 C12 C14
+//@   alsoprops C06
 //@   entry nolocks
 //@   requires g != nil && sTag != nil
 //@   requires rb != nil ==> wfEntities(rb.Kc)
@@ -241,7 +252,7 @@ package engine
 //@   use seqmonitor(rules, sTag.StopTag, b)
 //@   use seqpost(rules, b, cursor > 0)
 //@   ensures [C12] nothingselected: cursor == 0 ==> result != nil
-//@   ensures [C11] newmap: rb != nil ==> g.returnResult != nil && fresh(g.returnResult)
+//@   ensures [C11,C06] newmap: rb != nil ==> g.returnResult != nil && fresh(g.returnResult)
 //@   modifies frame rulerun, g.returnResult
 //@   nopanic
 //@   use seqloop(1, rules, b)
@@ -256,6 +267,7 @@ package engine
 
 //@ func (*Gengine).ExecuteSelectedRulesConcurrent
 //@   props C11 C09 C12
+//@   alsoprops C06
 //@   entry nolocks
 //@   requires g != nil
 //@   requires rb != nil ==> wfEntities(rb.Kc)
@@ -270,7 +282,7 @@ package engine
 //@   ensures [C12] all: cursor + nfork > 0 ==> cursor + nfork == len(rules) && ((result != nil) <==> (failed || cfailed))
 //@   ensures [C12] nothingselected: cursor + nfork == 0 ==> result != nil
 //@   ensures [C11] resultmap: rb != nil ==> !pend && fresh(g.returnResult) && dom(g.returnResult) == R
-//@   ensures [C11] newmap: rb != nil ==> g.returnResult != nil && fresh(g.returnResult)
+//@   ensures [C11,C06] newmap: rb != nil ==> g.returnResult != nil && fresh(g.returnResult)
 //@   modifies frame rulerun, g.returnResult
 //@   nopanic
 //@   use forkloop(1, wg, len(rules), 0)
@@ -285,6 +297,7 @@ package engine
 
 //@ func (*Gengine).ExecuteSelectedRulesMixModel
 //@   props C05 C11 C09 C12
+//@   alsoprops C06
 //@   entry nolocks
 //@   requires g != nil
 //@   requires rb != nil ==> wfEntities(rb.Kc)
@@ -297,7 +310,7 @@ package engine
 //@   ensures [C05,C12] mix: cursor > 0 ==> ((result != nil) <==> (failed || cfailed)) && (len(rules) >= 3 ==> cursor == 1 && (nfork == 0 || nfork == len(rules) - 1) && (nfork == 0 <==> failed)) && (len(rules) <= 2 ==> nfork == 0 && (!failed ==> cursor == len(rules)))
 //@   ensures [C12] nothingselected: cursor == 0 ==> result != nil && nfork == 0
 //@   ensures [C11] resultmap: rb != nil ==> !pend && fresh(g.returnResult) && dom(g.returnResult) == R
-//@   ensures [C11] newmap: rb != nil ==> g.returnResult != nil && fresh(g.returnResult)
+//@   ensures [C11,C06] newmap: rb != nil ==> g.returnResult != nil && fresh(g.returnResult)
 //@   modifies frame rulerun, g.returnResult
 //@   nopanic
 //@   loop 1 invariant cur: cursor == rangeindex + 1 && 0 <= cursor && cursor <= len(rules) && len(rules) == 2 && !failed && nfork == 0 && stage == 0
@@ -319,6 +332,7 @@ package engine
 
 //@ func (*Gengine).ExecuteSelectedRulesInverseMixModel
 //@   props C05 C11 C09 C12
+//@   alsoprops C06
 //@   entry nolocks
 //@   requires g != nil
 //@   requires rb != nil ==> wfEntities(rb.Kc)
@@ -334,7 +348,7 @@ package engine
 //@   ensures [C05,C12] invmix: len(rules) > 2 ==> nfork == len(rules) - 1 && ((result != nil) <==> (failed || cfailed)) && (cursor == 1 || cursor == 0) && (cursor == 0 <==> cfailed)
 //@   ensures [C12] nothingselected: rb != nil && len(rules) == 0 ==> result != nil && cursor == 0 && nfork == 0
 //@   ensures [C11] resultmap: rb != nil ==> !pend && fresh(g.returnResult) && dom(g.returnResult) == R
-//@   ensures [C11] newmap: rb != nil ==> g.returnResult != nil && fresh(g.returnResult)
+//@   ensures [C11,C06] newmap: rb != nil ==> g.returnResult != nil && fresh(g.returnResult)
 //@   modifies frame rulerun, g.returnResult
 //@   nopanic
 //@   loop 1 invariant cur: cursor == rangeindex + 1 && 0 <= cursor && cursor <= len(rules) && len(rules) <= 2 && !failed && nfork == 0 && stage == 0
@@ -356,6 +370,7 @@ package engine
 
 //@ func (*Gengine).ExecuteNSortMConcurrent
 //@   props C05 C11 C09
+//@   alsoprops C06
 //@   entry nolocks
 //@   requires g != nil && nSort <= 1000000000 && mConcurrent <= 1000000000
 //@   requires rb != nil ==> wfSorted(rb.Kc)
@@ -367,7 +382,7 @@ package engine
 //@   ensures [C05] contall: rb != nil && nSort > 0 && mConcurrent > 0 && nSort + mConcurrent <= len(S) && b ==> cursor == nSort && nfork == mConcurrent && ((result != nil) <==> (failed || cfailed))
 //@   ensures [C05] stopfirst: rb != nil && nSort > 0 && mConcurrent > 0 && nSort + mConcurrent <= len(S) && !b ==> (failed ==> result != nil && nfork == 0) && (!failed ==> cursor == nSort && nfork == mConcurrent && ((result != nil) <==> cfailed))
 //@   ensures [C11] resultmap: rb != nil ==> !pend && fresh(g.returnResult) && dom(g.returnResult) == R
-//@   ensures [C11] newmap: rb != nil ==> g.returnResult != nil && fresh(g.returnResult)
+//@   ensures [C11,C06] newmap: rb != nil ==> g.returnResult != nil && fresh(g.returnResult)
 //@   modifies frame rulerun, g.returnResult
 //@   nopanic
 //@   loop 0 invariant cur: cursor == rangeindex + 1 && 0 <= cursor && cursor <= nSort && nfork == 0 && stage == 0 && !cfailed
@@ -383,6 +398,7 @@ package engine
 
 //@ func (*Gengine).ExecuteNConcurrentMSort
 //@   props C05 C11 C09
+//@   alsoprops C06
 //@   entry nolocks
 //@   requires g != nil && nConcurrent <= 1000000000 && mSort <= 1000000000
 //@   requires rb != nil ==> wfSorted(rb.Kc)
@@ -396,7 +412,7 @@ package engine
 //@   ensures [C05] contall: rb != nil && nConcurrent > 0 && mSort > 0 && nConcurrent + mSort <= len(S) && b ==> cursor == mSort && nfork == nConcurrent && ((result != nil) <==> (failed || cfailed))
 //@   ensures [C05] stopfirst: rb != nil && nConcurrent > 0 && mSort > 0 && nConcurrent + mSort <= len(S) && !b ==> nfork == nConcurrent && (cfailed ==> result != nil && cursor == 0) && (!cfailed && failed ==> result != nil) && (!cfailed && !failed ==> cursor == mSort && result == nil)
 //@   ensures [C11] resultmap: rb != nil ==> !pend && fresh(g.returnResult) && dom(g.returnResult) == R
-//@   ensures [C11] newmap: rb != nil ==> g.returnResult != nil && fresh(g.returnResult)
+//@   ensures [C11,C06] newmap: rb != nil ==> g.returnResult != nil && fresh(g.returnResult)
 //@   modifies frame rulerun, g.returnResult
 //@   nopanic
 //@   use forkloop(0, wg, nConcurrent, 0)
@@ -415,6 +431,7 @@ package engine
 
 //@ func (*Gengine).ExecuteNConcurrentMConcurrent
 //@   props C05 C11 C09
+//@   alsoprops C06
 //@   entry nolocks
 //@   requires g != nil && nConcurrent <= 1000000000 && mConcurrent <= 1000000000
 //@   requires rb != nil ==> wfSorted(rb.Kc)
@@ -431,7 +448,7 @@ package engine
 //@   ensures [C05] stopfirst: rb != nil && nConcurrent > 0 && mConcurrent > 0 && nConcurrent + mConcurrent <= len(S) && !b ==> (c1failed ==> result != nil && nfork == nConcurrent) && (!c1failed ==> nfork == nConcurrent + mConcurrent && ((result != nil) <==> cfailed))
 //@   ensures [C05] nodirect: cursor == 0
 //@   ensures [C11] resultmap: rb != nil ==> !pend && fresh(g.returnResult) && dom(g.returnResult) == R
-//@   ensures [C11] newmap: rb != nil ==> g.returnResult != nil && fresh(g.returnResult)
+//@   ensures [C11,C06] newmap: rb != nil ==> g.returnResult != nil && fresh(g.returnResult)
 //@   modifies frame rulerun, g.returnResult
 //@   nopanic
 //@   use forkloop(0, nwg, nConcurrent, 0)
@@ -450,6 +467,7 @@ package engine
 
 //@ func (*Gengine).ExecuteSelectedNSortMConcurrent
 //@   props C05 C11 C09 C12
+//@   alsoprops C06
 //@   entry nolocks
 //@   requires g != nil && nSort <= 1000000000 && mConcurrent <= 1000000000
 //@   requires rb != nil ==> wfEntities(rb.Kc)
@@ -467,7 +485,7 @@ package engine
 //@   ensures [C05] contall: cursor > 0 && b ==> cursor == nSort && nfork == mConcurrent && ((result != nil) <==> (failed || cfailed))
 //@   ensures [C05] stopfirst: cursor > 0 && !b ==> (failed ==> result != nil && nfork == 0) && (!failed ==> cursor == nSort && nfork == mConcurrent && ((result != nil) <==> cfailed))
 //@   ensures [C11] resultmap: rb != nil ==> !pend && fresh(g.returnResult) && dom(g.returnResult) == R
-//@   ensures [C11] newmap: rb != nil ==> g.returnResult != nil && fresh(g.returnResult)
+//@   ensures [C11,C06] newmap: rb != nil ==> g.returnResult != nil && fresh(g.returnResult)
 //@   modifies frame rulerun, g.returnResult
 //@   nopanic
 //@   loop 1 invariant cur: cursor == rangeindex + 1 && 0 <= cursor && cursor <= nSort && nfork == 0 && stage == 0 && !cfailed && len(rules) == len(names) && len(names) == nSort + mConcurrent && nSort > 0 && mConcurrent > 0
@@ -489,6 +507,7 @@ package engine
 
 //@ func (*Gengine).ExecuteSelectedNConcurrentMSort
 //@   props C05 C11 C09 C12
+//@   alsoprops C06
 //@   entry nolocks
 //@   requires g != nil && nConcurrent <= 1000000000 && mSort <= 1000000000
 //@   requires rb != nil ==> wfEntities(rb.Kc)
@@ -506,7 +525,7 @@ package engine
 //@   ensures [C05] contall: nfork > 0 && b ==> cursor == mSort && nfork == nConcurrent && ((result != nil) <==> (failed || cfailed))
 //@   ensures [C05] stopfirst: nfork > 0 && !b ==> nfork == nConcurrent && (cfailed ==> result != nil && cursor == 0) && (!cfailed && failed ==> result != nil) && (!cfailed && !failed ==> cursor == mSort && result == nil)
 //@   ensures [C11] resultmap: rb != nil ==> !pend && fresh(g.returnResult) && dom(g.returnResult) == R
-//@   ensures [C11] newmap: rb != nil ==> g.returnResult != nil && fresh(g.returnResult)
+//@   ensures [C11,C06] newmap: rb != nil ==> g.returnResult != nil && fresh(g.returnResult)
 //@   modifies frame rulerun, g.returnResult
 //@   nopanic
 //@   use forkloop(1, wg, nConcurrent, 0)
@@ -531,6 +550,7 @@ package engine
 
 //@ func (*Gengine).ExecuteSelectedNConcurrentMConcurrent
 //@   props C05 C11 C09 C12
+//@   alsoprops C06
 //@   entry nolocks
 //@   requires g != nil && nConcurrent <= 1000000000 && mConcurrent <= 1000000000
 //@   requires rb != nil ==> wfEntities(rb.Kc)
@@ -551,7 +571,7 @@ package engine
 //@   ensures [C05] stopfirst: nfork > 0 && !b ==> (c1failed ==> result != nil && nfork == nConcurrent) && (!c1failed ==> nfork == nConcurrent + mConcurrent && ((result != nil) <==> cfailed))
 //@   ensures [C05] nodirect: cursor == 0
 //@   ensures [C11] resultmap: rb != nil ==> !pend && fresh(g.returnResult) && dom(g.returnResult) == R
-//@   ensures [C11] newmap: rb != nil ==> g.returnResult != nil && fresh(g.returnResult)
+//@   ensures [C11,C06] newmap: rb != nil ==> g.returnResult != nil && fresh(g.returnResult)
 //@   modifies frame rulerun, g.returnResult
 //@   nopanic
 //@   use forkloop(1, nwg, nConcurrent, 0)
@@ -569,6 +589,7 @@ package engine
 
 //@ func (*Gengine).ExecuteDAGModel
 //@   props C13 C11 C09
+//@   alsoprops C06
 //@   entry nolocks
 //@   requires g != nil
 //@   requires rb != nil ==> wfEntities(rb.Kc)
@@ -594,7 +615,7 @@ package engine
 //@   ensures [C13] errpolicy: rb != nil ==> ((result != nil) <==> cfailed) && njoined == nfork
 //@   ensures [C13] norb: rb == nil ==> result != nil && nfork == 0
 //@   ensures [C11] resultmap: rb != nil ==> fresh(g.returnResult) && dom(g.returnResult) == R
-//@   ensures [C11] newmap: rb != nil ==> g.returnResult != nil && fresh(g.returnResult)
+//@   ensures [C11,C06] newmap: rb != nil ==> g.returnResult != nil && fresh(g.returnResult)
 //@   modifies frame rulerun, g.returnResult
 //@   nopanic
 //@   loop 0 invariant layers: 0 <= i && i <= len(dag) && njoined == nfork && joinedfail == cfailed && !cfailed && kc == KC0
